@@ -133,6 +133,27 @@ class Database:
                 self.triggers.setdefault((r.table, r.timing, r.event), []).append(r)
             self.routines[(kind, r.name)] = r
 
+    def reset(self, seed=0, clock=None):
+        """empty every table and reset counters; compiled statements / routines are kept (they only hold
+        references to Table objects, which survive)"""
+        for t in self.tables.values():
+            t.rows = []
+            t.uidx = [dict() for _ in t.uniques]
+            t.version += 1
+            t.auto_next = 1
+            t._hidx = {}
+        self.rng = random.Random(seed)
+        if clock is not None:
+            self.clock = clock
+        self.branch_hits = Counter()
+        self.routine_calls = Counter()
+        self.commit_hooks = []
+        self.lock_owner = None
+        self.lock_waiters = []
+        self.n_commits = 0
+        self.n_statements = 0
+        self.stmt_log = None
+
     def rand(self):
         return self.rng.random()
 
@@ -257,6 +278,8 @@ class Connection:
         self.params = args if args is not None else ()
         if isinstance(self.params, list):
             self.params = tuple(self.params)
+        elif not isinstance(self.params, (tuple, dict)):
+            self.params = (self.params,)  # pymysql: a scalar argument is formatted as a single value
         if db.stmt_log is not None:
             db.stmt_log.append((sql, args))
         self.result_sets = []
@@ -315,7 +338,15 @@ class Connection:
                 self.row_count = 1
                 return 1
             names, rows = plan.run(None, frame, self)
-            self.result_sets.append((names, rows))
+            # pymysql DictCursor: a repeated column name is reported as "<table>.<name>"
+            seen = set()
+            out_names = []
+            for n, tb in zip(names, plan.col_tables + [''] * len(names)):
+                if n in seen:
+                    n = f'{tb}.{n}'
+                seen.add(n)
+                out_names.append(n)
+            self.result_sets.append((out_names, rows))
             self.row_count = -1
             return len(rows)
         if tag == 'insert':
